@@ -220,3 +220,18 @@ contract(R + 'Device.send_cmd_recv_rsp', 'C14',
          name='C14/rcs380.send_cmd_recv_rsp.crc', raises=DOC, use=RUSE,
          ensures=[('O-crc.checked', 'implies(%s and result is not None and len(result) > 2, '
                                     'was_called("C13/check_crc_a") and call_ret("C13/check_crc_a") != False)' % T2LIKE)])
+
+# ---------------------------------------------------------------- udp driver (the RF link is a datagram socket)
+# whatever datagram arrives - any octets, not only "<brty> <hex>" - the two exchange functions return data or
+# raise a CommunicationError / IOError.  BOUNDED: datagrams of at most 8 octets (split()/unhexlify()/decode() are
+# decided exactly by forking per octet); one pass through the receive loop and the next.
+U = 'nfc.clf.udp:'
+UDEV = lambda: Obj(U + 'Device', socket=Obj('models.hostlink:UdpSocket', _partial=False, sent=0),   # noqa
+                   addr=Const(('127.0.0.1', 54321)), sent_data=0, rcvd_data=0)
+UTGT = lambda cls: Obj('nfc.clf:' + cls, _partial=False, _brty_send='106A', _brty_recv='106A',   # noqa
+                       _addr=Const(('127.0.0.1', 54321)))
+for _fn, _cls in (('send_cmd_recv_rsp', 'RemoteTarget'), ('send_rsp_recv_cmd', 'LocalTarget')):
+    contract(U + 'Device.' + _fn, 'C13',
+             dict(self=UDEV(), target=UTGT(_cls), data=Opt(Bytes(0, 4, mutable=True)), timeout=Const(0.1)),
+             name='C13/udp.' + _fn, bounded='bounded: datagrams of at most 8 octets',
+             raises=DOC, loops={('nfc.clf.udp.Device._recv_data', 'While', 0): LoopSpec(invariant=['True'], havoc={'self.rcvd_data': Int(0, None)})})
